@@ -18,7 +18,7 @@ from mc.models import validator_table as VT
 
 ID = "C07"
 LEVEL = "exploration"
-REQUIRED_OUTCOMES = ["value:rejected", "value:coerced-in-domain", "type-swap:rejected", "type-swap-1.0:no-claim",
+REQUIRED_OUTCOMES = ["older-version:value:rejected", "value:rejected", "value:coerced-in-domain", "type-swap:rejected", "type-swap-1.0:no-claim",
                      "version:rejected", "deletion:rejected", "treeinfo:value:rejected", "discinfo:rejected"]
 
 TYPES = {"composeinfo": "productmd.composeinfo", "images": "productmd.images", "rpms": "productmd.rpms",
@@ -159,11 +159,39 @@ def load_outcome(fmt, text, path=None, kind=None):
     return out
 
 
-def eval_json(base, op):
-    """op = ['set', path, value] | ['del', path] | ['hdr', type, version]"""
+OLDER = {"composeinfo": ["0.3", "1.0", "1.1"], "images": ["1.0", "1.1"], "rpms": ["1.0", "1.1"], "treeinfo": ["0.3", "1.0", "1.1"]}
+
+
+def older_json(fmt, doc, ver):
+    from mc.models import legacy
+    conv = {"composeinfo": legacy.composeinfo, "images": legacy.images, "rpms": legacy.rpms}[fmt](copy.deepcopy(doc), ver)
+    return None if conv is None else conv[0]
+
+
+def eval_json(base, op, ver=None):
+    """op = ['set', path, value] | ['del', path] | ['hdr', type, version]; ver: the corrupted document is first re-expressed in
+    that older format version (-> {'load': 'not-carried'} when the older format has no place for the corrupted value)"""
     fmt, build = BASES[base]
     doc = json.loads(build())
     kind = op[3] if op[0] == "set" and len(op) > 3 else None
+    if ver is not None and op[0] == "del":
+        old = older_json(fmt, doc, ver)
+        try:
+            get_path(old, op[1])
+        except (KeyError, IndexError, TypeError):
+            return {"load": "not-carried"}                     # (the older format has no such key)
+        del_path(old, op[1])
+        return load_outcome(fmt, json.dumps(old))
+    if ver is not None:
+        clean = older_json(fmt, doc, ver)
+        set_path(doc, op[1], copy.deepcopy(op[2]))
+        try:
+            old = older_json(fmt, doc, ver)
+        except Exception:                                      # noqa  (the down-converter cannot digest the corrupted value)
+            return {"load": "not-carried"}
+        if old is None or clean is None or old == clean:
+            return {"load": "not-carried"}
+        return load_outcome(fmt, json.dumps(old), op[1], kind)
     if op[0] == "set":
         set_path(doc, op[1], copy.deepcopy(op[2]))
     elif op[0] == "rekey":
@@ -238,9 +266,12 @@ def ti_ops(text):
                 yield "del %s.%s" % (sec, k), ["delopt", sec, k]
 
 
-def eval_ti(base, op):
+def eval_ti(base, op, ver=None):
     fmt, build = BASES[base]
     sections = [(n, [(k, v) for k, v in opts if not k.startswith(";")]) for n, opts in ini.parse(build())]
+    if ver is not None:
+        from mc.models import legacy
+        clean = legacy.treeinfo(sections, ver)[0]
     if op[0] == "hdr":
         sections = [(n, [(k, (op[1] if k == "type" else op[2] if k == "version" else v)) for k, v in opts] if n == "header" else opts)
                     for n, opts in sections]
@@ -264,6 +295,11 @@ def eval_ti(base, op):
         sections = [(n, opts) for n, opts in sections if n != op[1]]
     elif op[0] == "addsec":
         sections = sections + [(op[1], [tuple(kv) for kv in op[2]])]
+    if ver is not None:
+        old = legacy.treeinfo(sections, ver)[0]
+        if old == clean:
+            return {"load": "not-carried"}
+        sections = old
     return load_outcome("treeinfo", render(sections))
 
 
@@ -289,10 +325,10 @@ def units(tier, seed):
     return [("base", b) for b in (QUICK if tier == "quick" else sorted(BASES))]
 
 
-def _judge_value(base, label, path, kind, value, o, acc):
-    case = {"kind": "json", "base": base, "op": ["set", path, value, kind]}
+def _judge_value(base, label, path, kind, value, o, acc, ver=None):
+    case = {"kind": "json", "base": base, "op": ["set", path, value, kind], "ver": ver}
     if o["load"] == "rejected":
-        acc.outcome("value:rejected")
+        acc.outcome("value:rejected" if ver is None else "older-version:value:rejected")
         return
     now = o.get("value_now")
     changed = type(now) is not type(value) or now != value
@@ -300,14 +336,31 @@ def _judge_value(base, label, path, kind, value, o, acc):
     if ok:
         acc.outcome("value:coerced-in-domain")
         return
-    acc.violation("loaded:" + (kind or label.split(".")[-1]), case, o,
-                  "%s with %s = %r was loaded successfully (now: %r, writable: %s)"
-                  % (base, label, value, o.get("value_now"), o.get("rewritable")))
+    acc.violation("loaded%s:%s" % ("" if ver is None else "-" + ver, kind or label.split(".")[-1]), case, o,
+                  "%s%s with %s = %r was loaded successfully (now: %r, writable: %s)"
+                  % (base, "" if ver is None else " as a format %s document" % ver, label, value, o.get("value_now"), o.get("rewritable")))
+
+
+DEGENERATE = {"json": ["{}", "[]", "null", "0", "false", '""', '{"header": {}}', '{"payload": {}}', '{"header": null, "payload": null}'],
+              "treeinfo": ["", "\n", "[header]\n", "[general]\n", "# nothing\n"], "discinfo": ["", "\n", " \n \n"]}
+
+
+def eval_degenerate(fmt, text):
+    return load_outcome(fmt, text)
 
 
 def run_unit(unit, acc):
     base = unit[1]
     fmt, build = BASES[base]
+    for text in DEGENERATE["json" if fmt not in ("treeinfo", "discinfo") else fmt]:
+        o = eval_degenerate(fmt, text)                       # documents with (almost) nothing in them lack every required section
+        acc.ev()
+        acc.nontriv((fmt, "degenerate", text))
+        if o["load"] != "rejected":
+            acc.violation("degenerate:" + fmt, {"kind": "degenerate", "fmt": fmt, "text": text}, o,
+                          "the %s document %r (no required section at all) was loaded successfully" % (fmt, text))
+        else:
+            acc.outcome("deletion:rejected")
     if fmt == "discinfo":
         for name, lines in di_ops():
             o = eval_di(lines)
@@ -330,6 +383,18 @@ def run_unit(unit, acc):
                               "%s with %s (%s) was loaded successfully" % (base, label, op))
             else:
                 acc.outcome("deletion:rejected" if op[0].startswith("del") else "treeinfo:value:rejected")
+            if op[0] in ("set", "addsec"):
+                for ver in OLDER["treeinfo"]:                   # the same corrupted value in a document of an older format version
+                    o = eval_ti(base, op, ver)
+                    acc.ev()
+                    if o["load"] == "not-carried":
+                        continue
+                    acc.nontriv((base, json.dumps(op), ver))
+                    if o["load"] != "rejected":
+                        acc.violation("treeinfo-%s:%s" % (ver, label.split("[")[0].split(" ")[-1]), {"kind": "ti", "base": base, "op": op, "ver": ver}, o,
+                                      "%s as a format %s document with %s (%s) was loaded successfully" % (base, ver, label, op))
+                    else:
+                        acc.outcome("older-version:value:rejected")
         for t in others:
             for ver in ("1.0", "1.1", "1.2", "2.0"):
                 o = eval_ti(base, ["hdr", t, ver])
@@ -353,6 +418,15 @@ def run_unit(unit, acc):
             acc.ev()
             acc.nontriv((base, label, repr(value)))
             _judge_value(base, label, path, kind, value, o, acc)
+            for ver in OLDER.get(fmt, []):                      # the same corrupted value in a document of an older format version
+                if ver == "1.0" and "conflicting-copy" in (kind or "") + label:
+                    continue                                    # (identity uniqueness is a rule of format 1.1 and later: C09)
+                o = eval_json(base, ["set", path, value, kind], ver)
+                acc.ev()
+                if o["load"] == "not-carried":
+                    continue
+                acc.nontriv((base, label, repr(value), ver))
+                _judge_value(base, label, path, kind, value, o, acc, ver)
     if fmt == "images":
         for v in sorted(doc["payload"]["images"]):
             for a in sorted(doc["payload"]["images"][v]):
@@ -374,6 +448,17 @@ def run_unit(unit, acc):
                           "%s without required %s was loaded" % (base, "/".join(map(str, path))))
         else:
             acc.outcome("deletion:rejected")
+        for ver in OLDER.get(fmt, []):
+            o = eval_json(base, ["del", path], ver)
+            acc.ev()
+            if o["load"] == "not-carried":
+                continue
+            acc.nontriv((base, "del", json.dumps(path), ver))
+            if o["load"] != "rejected":
+                acc.violation("deletion-" + ver, {"kind": "json", "base": base, "op": ["del", path], "ver": ver}, o,
+                              "%s as a format %s document without required %s was loaded" % (base, ver, "/".join(map(str, path))))
+            else:
+                acc.outcome("older-version:deletion:rejected")
     for t in others:
         for ver in ("1.0", "1.1", "1.2", "2.0"):
             o = eval_json(base, ["hdr", t, ver])
@@ -403,10 +488,12 @@ def _judge_hdr(base, how, t, ver, o, acc):
 
 
 def replay(case):
+    if case["kind"] == "degenerate":
+        return eval_degenerate(case["fmt"], case["text"])
     if case["kind"] == "json":
-        return eval_json(case["base"], case["op"])
+        return eval_json(case["base"], case["op"], case.get("ver"))
     if case["kind"] == "ti":
-        return eval_ti(case["base"], case["op"])
+        return eval_ti(case["base"], case["op"], case.get("ver"))
     return eval_di(case["lines"])
 
 
